@@ -1,4 +1,341 @@
 package main
 
-func runThorough(id string, d *propDef, p *Prog, r *Report, repo string) {
+import (
+	"encoding/json"
+	"fmt"
+	"os"
+	"os/exec"
+	"path/filepath"
+	"sort"
+	"strings"
+	"sync"
+)
+
+// The thorough tier adds, on top of everything the quick tier does:
+//  (a) the same rules on other build configurations of /repo's current tree (linux/386 — build-
+//      tagged files and 32-bit alignment — and windows/amd64, darwin/amd64 for the storage files);
+//  (b) a cross-check of every call-graph dependent rule under the coarser CHA call graph
+//      (differences are recorded, not reported: CHA over-approximates);
+//  (c) a self-test of the rules: every catalogued mutant of this property (a realistic breaking
+//      edit, /verif/mutants/*.json) and every confirmed seeded regression (/verif/seeded/*) is
+//      applied to the CURRENT tree as an in-memory overlay / scratch copy, re-analysed in a child
+//      process, and must make the expected rule fire; benign refactorings must stay silent.
+//      A missed mutant is printed as SELFTEST-MISS and recorded in the evidence; it is a defect of
+//      the checker, not of goleveldb, so it does not produce a VIOLATION line.
+
+type mutEdit struct {
+	File    string `json:"file"`
+	Find    string `json:"find"`
+	Replace string `json:"replace"`
+	Count   int    `json:"count"`
+}
+
+type mutant struct {
+	ID     string     `json:"id"`
+	Edits  []mutEdit  `json:"edits"`
+	Expect [][]string `json:"expect"`
+	Silent []string   `json:"silent"`
+	Note   string     `json:"note"`
+}
+
+var loadOverlay map[string][]byte
+
+// applyMutantOverlay prepares the overlay for -mutant file:id. ok=false: context not found.
+func applyMutantOverlay(repo, spec string) (bool, error) {
+	i := strings.LastIndex(spec, ":")
+	if i < 0 {
+		return false, fmt.Errorf("-mutant wants file.json:id")
+	}
+	var ms []mutant
+	b, err := os.ReadFile(spec[:i])
+	if err != nil {
+		return false, err
+	}
+	if err := json.Unmarshal(b, &ms); err != nil {
+		return false, err
+	}
+	for _, m := range ms {
+		if m.ID != spec[i+1:] {
+			continue
+		}
+		loadOverlay = map[string][]byte{}
+		for _, e := range m.Edits {
+			path := filepath.Join(repo, e.File)
+			src, ok := loadOverlay[path]
+			if !ok {
+				src, err = os.ReadFile(path)
+				if err != nil {
+					return false, err
+				}
+			}
+			cnt := e.Count
+			if cnt == 0 {
+				cnt = 1
+			}
+			if strings.Count(string(src), e.Find) != cnt {
+				return false, nil
+			}
+			loadOverlay[path] = []byte(strings.ReplaceAll(string(src), e.Find, e.Replace))
+		}
+		return true, nil
+	}
+	return false, fmt.Errorf("mutant %s not found", spec[i+1:])
+}
+
+func runSub(id string, d *propDef, p *Prog) *Report {
+	sub := newReport(id, "sub", 0, "")
+	func() {
+		defer func() {
+			if x := recover(); x != nil {
+				if sub.cur == nil {
+					sub.Begin(id+".panic", "ENGINE", "analysis completes", 0)
+				}
+				sub.Fail("checker", "analysis-panic", "analysis completes without internal error", fmt.Sprint(x), "", nil)
+				sub.End()
+			}
+		}()
+		d.run(p, sub)
+	}()
+	return sub
+}
+
+func runThorough(id string, d *propDef, p *Prog, r *Report, repo, verif string) {
+	// (a) other build configurations
+	type cfg struct{ goos, goarch string }
+	var cfgNotes []string
+	for _, c := range []cfg{{"linux", "386"}, {"windows", "amd64"}, {"darwin", "amd64"}} {
+		name := c.goos + "/" + c.goarch
+		r.Begin(id+".cfg["+name+"]", "CONFIG", "the same rules hold for the "+name+" build of the current tree (build-tagged files, word size)", 1)
+		q, err := loadProg(repo, c.goos, c.goarch, []string{"./leveldb/..."}, 13)
+		if err != nil {
+			r.Fail("repo["+name+"]", "load-error", "the tree loads and type-checks for "+name, err.Error(), "", nil)
+			r.End()
+			continue
+		}
+		sub := runSub(id, d, q)
+		nf := 0
+		for _, o := range sub.Obls {
+			r.Site(1)
+			if o.Status != "ok" {
+				nf++
+				r.Fail("["+name+"] "+o.Construct, o.Rule+":"+o.Kind, o.What, o.Detail, o.Pos, o.Path)
+			}
+		}
+		if nf == 0 {
+			r.OK("repo["+name+"]", "all-rules", fmt.Sprintf("all %d obligations of this property are discharged on %s", len(sub.Obls), name))
+		}
+		cfgNotes = append(cfgNotes, fmt.Sprintf("%s: %d obligations, %d failed", name, len(sub.Obls), nf))
+		r.End()
+	}
+	r.Extra["configurations"] = cfgNotes
+
+	// (b) CHA cross-check
+	{
+		p.CG()
+		saved := p.cg
+		p.cg = p.chaCG
+		sub := runSub(id, d, p)
+		p.cg = saved
+		var only []string
+		for _, o := range sub.Obls {
+			if o.Status != "ok" {
+				only = append(only, o.Key())
+			}
+		}
+		sort.Strings(only)
+		r.Extra["cha_crosscheck"] = map[string]interface{}{"obligations": len(sub.Obls), "fail_only_under_CHA": only,
+			"note": "CHA over-approximates dynamic dispatch; entries listed here are imprecision of the coarser graph (VTA result is the verdict), an empty list means the verdict does not depend on VTA's precision"}
+	}
+
+	// (c) self-test
+	runSelfTest(id, r, repo, verif)
+}
+
+type stJob struct {
+	kind   string // "mutant" | "benign" | "seeded"
+	id     string
+	args   []string
+	expect []string // rules expected to fire (empty for benign)
+	clean  func()
+}
+
+type stRes struct {
+	job    stJob
+	status string // killed | missed | skipped | nobuild | silent | false-alarm
+	detail string
+}
+
+func runSelfTest(id string, r *Report, repo, verif string) {
+	self, err := os.Executable()
+	if err != nil {
+		r.Extra["selftest"] = "skipped: " + err.Error()
+		return
+	}
+	var jobs []stJob
+	files, _ := filepath.Glob(filepath.Join(verif, "mutants", "*.json"))
+	sort.Strings(files)
+	for _, f := range files {
+		var ms []mutant
+		b, err := os.ReadFile(f)
+		if err != nil || json.Unmarshal(b, &ms) != nil {
+			continue
+		}
+		for _, m := range ms {
+			var exp []string
+			for _, e := range m.Expect {
+				if len(e) == 2 && e[0] == id {
+					exp = append(exp, e[1])
+				}
+			}
+			base := []string{"-repo", repo, "-verif", verif, "-prop", id, "-nofixtures", "-tier", "quick", "-mutant", f + ":" + m.ID}
+			if len(exp) > 0 {
+				jobs = append(jobs, stJob{kind: "mutant", id: m.ID, args: base, expect: exp})
+			}
+			for _, s := range m.Silent {
+				if s == id {
+					jobs = append(jobs, stJob{kind: "benign", id: m.ID, args: base})
+				}
+			}
+		}
+	}
+	// seeded regressions confirmed against the real code
+	metas, _ := filepath.Glob(filepath.Join(verif, "seeded", "*", "meta.json"))
+	sort.Strings(metas)
+	for _, mf := range metas {
+		var meta struct {
+			ID       string   `json:"id"`
+			Breaks   string   `json:"breaks_property"`
+			CaughtBy []string `json:"caught_by_rules"`
+		}
+		b, err := os.ReadFile(mf)
+		if err != nil || json.Unmarshal(b, &meta) != nil {
+			continue
+		}
+		var exp []string
+		for _, c := range meta.CaughtBy {
+			if strings.HasPrefix(c, id+".") {
+				exp = append(exp, c)
+			}
+		}
+		if len(exp) == 0 {
+			continue
+		}
+		dir := filepath.Dir(mf)
+		tmp, err := os.MkdirTemp("", "lvseed-")
+		if err != nil {
+			continue
+		}
+		dst := filepath.Join(tmp, "repo")
+		cp := exec.Command("rsync", "-a", "--exclude", ".git", repo+"/", dst+"/")
+		if out, err := cp.CombinedOutput(); err != nil {
+			os.RemoveAll(tmp)
+			r.Extra["selftest_seeded_"+meta.ID] = "copy failed: " + string(out)
+			continue
+		}
+		ap := exec.Command("patch", "-p1", "-s", "-i", filepath.Join(dir, "patch.diff"))
+		ap.Dir = dst
+		if out, err := ap.CombinedOutput(); err != nil {
+			os.RemoveAll(tmp)
+			jobs = append(jobs, stJob{kind: "seeded-skip", id: meta.ID, expect: exp, args: []string{string(out)}})
+			continue
+		}
+		t := tmp
+		jobs = append(jobs, stJob{kind: "seeded", id: meta.ID, expect: exp, clean: func() { os.RemoveAll(t) },
+			args: []string{"-repo", dst, "-verif", verif, "-prop", id, "-nofixtures", "-tier", "quick"}})
+	}
+
+	res := make([]stRes, len(jobs))
+	var wg sync.WaitGroup
+	sem := make(chan struct{}, 4)
+	for i := range jobs {
+		wg.Add(1)
+		go func(i int) {
+			defer wg.Done()
+			sem <- struct{}{}
+			defer func() { <-sem }()
+			j := jobs[i]
+			if j.clean != nil {
+				defer j.clean()
+			}
+			if j.kind == "seeded-skip" {
+				res[i] = stRes{j, "skipped", "patch does not apply to the current tree: " + strings.TrimSpace(j.args[0])}
+				return
+			}
+			out, err := os.MkdirTemp("", "lvst-")
+			if err != nil {
+				res[i] = stRes{j, "skipped", err.Error()}
+				return
+			}
+			defer os.RemoveAll(out)
+			cmd := exec.Command(self, append(j.args, "-out", out)...)
+			cmd.Env = append(os.Environ(), "LVCHECK_PROCS=2")
+			b, _ := cmd.CombinedOutput()
+			code := cmd.ProcessState.ExitCode()
+			text := string(b)
+			switch {
+			case code == 3:
+				res[i] = stRes{j, "skipped", "edit context not found in the current tree"}
+			case strings.Contains(text, "[load-error]"):
+				res[i] = stRes{j, "nobuild", "mutated tree does not type-check"}
+			case j.kind == "benign":
+				if code == 0 {
+					res[i] = stRes{j, "silent", ""}
+				} else {
+					res[i] = stRes{j, "false-alarm", firstFail(text, "")}
+				}
+			default:
+				miss := ""
+				hit := ""
+				for _, rule := range j.expect {
+					if l := firstFail(text, rule); l != "" && code == 1 {
+						hit = l
+					} else {
+						miss += rule + " "
+					}
+				}
+				if miss == "" {
+					res[i] = stRes{j, "killed", hit}
+				} else {
+					res[i] = stRes{j, "missed", "expected rule(s) " + miss + "did not fire (exit " + fmt.Sprint(code) + ")"}
+				}
+			}
+		}(i)
+	}
+	wg.Wait()
+
+	cnt := map[string]int{}
+	var problems, skipped []string
+	for _, x := range res {
+		cnt[x.status]++
+		switch x.status {
+		case "missed", "false-alarm":
+			problems = append(problems, fmt.Sprintf("%s %s: %s %s", x.job.kind, x.job.id, x.status, x.detail))
+			fmt.Printf("SELFTEST-MISS property=%s %s=%s %s %s\n", id, x.job.kind, x.job.id, x.status, x.detail)
+		case "skipped", "nobuild":
+			skipped = append(skipped, x.job.id+": "+x.detail)
+		}
+	}
+	sort.Strings(problems)
+	sort.Strings(skipped)
+	r.Extra["selftest"] = map[string]interface{}{
+		"what":     "catalogued breaking edits + confirmed seeded regressions applied to the current tree and re-analysed; benign refactorings must stay silent",
+		"jobs":     len(jobs),
+		"counts":   cnt,
+		"problems": problems,
+		"skipped":  skipped,
+	}
+	fmt.Printf("   selftest: %d jobs: %v\n", len(jobs), cnt)
+}
+
+func firstFail(text, rule string) string {
+	for _, l := range strings.Split(text, "\n") {
+		t := strings.TrimSpace(l)
+		if strings.HasPrefix(t, "FAIL "+rule) && (rule == "" || strings.HasPrefix(t, "FAIL "+rule+" ")) {
+			if len(t) > 200 {
+				t = t[:200]
+			}
+			return t
+		}
+	}
+	return ""
 }
